@@ -13,6 +13,10 @@ class Err(Exception):
     pass
 
 
+class Abort(BaseException):
+    """an application exception that is not an Exception subclass (like KeyboardInterrupt-style aborts)"""
+
+
 class K:
     """One execution of one lazily generated program."""
 
@@ -113,7 +117,7 @@ class K:
             try:
                 v = yield evt
                 out = ("ok", v)
-            except Err as e:
+            except (Err, Abort) as e:
                 out = ("exc", e.args)
                 exc = e
             except Interrupt as i:
@@ -148,6 +152,14 @@ class K:
             if kind == "raise":
                 self.finish(pid, False, (("xv", pid),))
                 raise Err(("xv", pid))
+            if kind == "raiseB":
+                self.finish(pid, False, (("bv", pid),))
+                raise Abort(("bv", pid))
+            if kind == "ret0":
+                # a falsy return value must reach the joiners as it is
+                val = (0, "", False)[pid % 3]
+                self.finish(pid, True, val)
+                return val
             if kind == "T":
                 t, lab = self.new_timeout(op[1])
                 yield from self.wait(pid, t, lab, True)
@@ -244,7 +256,7 @@ class K:
                     break
         except BaseException as e:  # noqa
             self.crashed = (self.env.now, type(e).__name__, getattr(e, "args", ()), e)
-            self.L("crash", type(e).__name__, e.args if isinstance(e, (Err, Interrupt)) else ())
+            self.L("crash", type(e).__name__, e.args if isinstance(e, (Err, Abort, Interrupt)) else ())
         return self
 
     def digest(self):
@@ -411,7 +423,7 @@ def check_delivery(k):
         t, pay, label = expect_crash
         if k.crashed is None:
             out.append(("crash", "unhandled-failure-of-%s-passed-silently" % kindname(label), "failure of %r at %r, no process waiting" % (label, t)))
-        elif k.crashed[0] != t or k.crashed[1] != "Err" or tuple(k.crashed[2]) != tuple(pay):
+        elif k.crashed[0] != t or k.crashed[1] not in ("Err", "Abort") or tuple(k.crashed[2]) != tuple(pay):
             out.append(("crash", "unhandled-failure-raised-wrongly", "expected Err%r at %r, run raised %r" % (pay, t, k.crashed[:3])))
     return out, nontrivial
 
